@@ -7,7 +7,7 @@ import os
 import warnings
 from fractions import Fraction
 
-from . import common
+from . import common, pure
 from .tlc import run_tlc
 
 DEFAULT_LIST = {"SetCover", "VertexCover", "NumberPartitioning", "GraphPartitioning", "JobSequencing"}
@@ -152,20 +152,20 @@ def run_case(case, cid, maxvars):
                 return rec
             kw = {}
             if cls == "AlternatingSectorsChain":
-                form = prob.to_quso(pbc=inst["pbc"])
+                form = pure.twice(lambda: prob.to_quso(pbc=inst["pbc"]))
                 spinform = True
             elif cls == "NumberPartitioning":
-                form = prob.to_quso(A=case["A"])
+                form = pure.twice(lambda: prob.to_quso(A=case["A"]))
                 spinform = True
             elif cls == "GraphPartitioning":
                 if case["A"] is not None:
                     kw = {"A": case["A"], "B": case["B"]}
-                form = prob.to_quso(**kw)
+                form = pure.twice(lambda: prob.to_quso(**kw))
                 spinform = True
             else:
                 if case["A"] is not None:
                     kw = {"A": case["A"], "B": case["B"]}
-                form = prob.to_qubo(**kw)
+                form = pure.twice(lambda: prob.to_qubo(**kw))
                 spinform = False
             terms = [(tuple(k), v) for k, v in dict.items(form)]
             # problem variables and index -> problem object (observed through unit assignments)
@@ -275,13 +275,13 @@ def run_case(case, cid, maxvars):
             # brute force
             try:
                 if cls in ("SetCover", "JobSequencing"):
-                    bf = prob.solve_bruteforce()
+                    bf = pure.twice(lambda: prob.solve_bruteforce())
                     rec["has_bf"], rec["bf"] = True, decode_to_on(bf, False)
-                    bfa = prob.solve_bruteforce(all_solutions=True)
+                    bfa = pure.twice(lambda: prob.solve_bruteforce(all_solutions=True))
                     rec["has_bf_all"], rec["bf_all"] = True, [decode_to_on(x, False) for x in bfa]
                 elif case["strict"] and cls in ("VertexCover", "BILP", "GraphPartitioning") and case["A"] is not None:
                     # the inherited solver forwards its arguments to to_qubo: weights above the threshold
-                    bf = prob.solve_bruteforce(A=case["A"], B=case["B"])
+                    bf = pure.twice(lambda: prob.solve_bruteforce(A=case["A"], B=case["B"]))
                     rec["has_bf"], rec["bf"] = True, decode_to_on(bf, False)
             except ValueError as e:
                 if "not solvable" not in str(e):
